@@ -51,15 +51,30 @@ LEVEL_A = [
               '(possible from `(SELECT a FROM t) OFFSET 1`, `SELECT a USING x = 1 OFFSET 1`) prints `... t OFFSET 1`, where OFFSET is read '
               'as an alias and the number is a syntax error', site='`id` rule (OFFSET alternative) of dialects/mysql/parser.py, dialects/mindsdb/parser.py'),
     dict(key='string-escapes', feats=['str-quote'], allow=['str-bs', 'str-nl', 'str-dquote'],
-         what="string values containing a quote: Constant.get_string prints \\' which the sqlite / mysql lexers cannot read (no escapes) and "
-              "which the MindsDB decoder reads wrongly at the edges / in runs (C04 codec findings KF-C04-2, -3, -4 seen through the statement round trip); "
-              "also names printed raw inside INSERT column lists", site='ast/select/constant.py Constant.get_string + the three lexers'),
+         what="a string with a quote that is printed outside Constant.get_string is not escaped: SHOW BINARY LOGS LIKE 'it''s' prints LIKE 'it's' "
+              "(Show.get_string formats `LIKE '{self.like}'`); the Constant codec itself (quotes in sqlite / mysql, edge and run cases in mindsdb) "
+              "was repaired in 2843e02", site='ast/show.py Show.get_string (LIKE)'),
     dict(key='string-backslash', feats=['str-bs'], allow=['str-quote', 'str-nl', 'str-dquote'],
          what='string values containing a backslash are printed unescaped (KF-C04-1, KF-C04-5 seen through the statement round trip)',
          site='ast/select/constant.py Constant.get_string'),
     dict(key='float-exp', feats=['float-exp'], allow=['float'],
          what='a float whose repr uses an exponent prints as 1e-05 / 1.0000000000000001e+23, which is not a numeric literal of the grammars (KF-C04-8)',
          site='ast/select/constant.py Constant.get_string: str(self.value)'),
+    dict(key='func-quoted', feats=['func-quoted'], allow=[],
+         what='a function whose name was written quoted is printed with the bare name: DROP VIEW "a b" ( ), a prints `a b()`; '
+              'CREATE MODEL a PREDICT "a b" ( ) prints `a b()`', site='ast/select/operation.py Function.get_string'),
+    dict(key='setop-right-nested', feats=['setop-right-nested'], allow=['setop-nested'],
+         what='parentheses around a set operation that is the right operand of another one are dropped (the rules `select : ( select ) | ( union )` '
+              'return the inner node without a flag): SELECT a EXCEPT (SELECT a EXCEPT SELECT *) is printed flat and re-read left-nested '
+              '(Lean witness C01_witness_union)', site='`LPAREN union RPAREN` rule of dialects/mindsdb/parser.py; ast/select/union.py', fix='fixes/C01_5.diff'),
+    dict(key='setop-parens', feats=['setop-nested'], allow=['nested-stmt'],
+         what='parentheses around a set operation used as a sub-query are dropped where the grammar needs them: CREATE TABLE a (SELECT a UNION SELECT *), '
+              'UPDATE a ON a FROM ((SELECT * INTERSECT SELECT a)), CREATE MODEL a PREDICT ((SELECT a UNION SELECT *)), CREATE KNOWLEDGE_BASE a FROM ((…))',
+         site='`LPAREN union RPAREN` rule; get_string of the enclosing statements', fix='fixes/C01_5.diff (all but CREATE KNOWLEDGE_BASE)'),
+    dict(key='nested-stmt', feats=['nested-stmt'], allow=[],
+         what='the grammars accept `( statement )` where a table is expected (INSERT INTO (SHOW …) …, DELETE FROM (INSERT …)); the nested statement is printed by '
+              'its own printer and inherits its findings (SHOW clauses dropped, INSERT with non-name columns crashes)',
+         site='from_table / table rules accepting `LPAREN query RPAREN` with `query` = any statement'),
 ]
 
 
@@ -69,15 +84,14 @@ WITNESS = {
     'ident-bq': ('mindsdb', 'SELECT * FROM ( SELECT 1 ) AS `alter`'), 'var-quoted': ('mindsdb', 'SELECT @`a b`'),
     'prints-repr': ('mindsdb', 'UPDATE SKILL a SET a = a'), 'prints-None': ('mindsdb', 'SHOW ENGINE'),
     'interval': ('mindsdb', "SELECT INTERVAL 'a b' a"), 'offset-bare': ('mysql', '( select a ) OFFSET 1'),
-    'string-escapes': ('mysql', 'SELECT "it\'s"'), 'string-backslash': ('mindsdb', "SELECT '\\\\'"),
-    'float-exp': ('sqlite', 'SELECT 0.00001'),
+    'string-escapes': ('sqlite', "SHOW BINARY LOGS LIKE 'it''s'"),
 }
 # further minimised inputs seen in earlier searches (kept so that their classes stay listed)
 EXTRA = [('mindsdb', 'SELECT a "."'), ('mindsdb', 'CREATE AGENT a USING a = 1'), ('mindsdb', "select @'a b'"),
          ('mysql', 'SELECT a "a`a"'), ('sqlite', 'INSERT INTO a ( `B""` ) VALUES ( 1 )')]
 
 
-FIXED = {'KF-C01-1': 'fa4fc42', 'KF-C01-6': '6a738d8'}
+FIXED = {'KF-C01-1': 'fa4fc42', 'KF-C01-6': '6a738d8', 'KF-C01-11': '2843e02', 'KF-C01-12': '2843e02', 'KF-C01-13': '5eca6b1'}
 FIXED_NEW = [dict(property='C01', status='fixed', commit='8cbc399',
                   what='fixed: property=C01 8cbc399 CREATE AGENT without a model printed `USING model=None, ...`, which was read back as the '
                        'identifier None (print-unstable): CREATE AGENT a USING a = 1',
@@ -203,6 +217,8 @@ def main():
                 c = FIXED.get(old['id'], '?')
                 out.append(dict(old, status='fixed', commit=c, what='fixed: property=C01 %s %s' % (c, old['what'])))
     for extra in FIXED_NEW:
+        if any(k.get('commit') == extra['commit'] for k in merged):
+            continue
         nxt += 1
         out.append(dict(extra, id='KF-C01-%d' % nxt))
     full = out
